@@ -38,9 +38,11 @@ class Derivative(Contract):
                    "positions are non-negative (negative positions: bounded check only)")
 
     KINDS = (("position",), ("name",), ("polynomial",), ("position", "name"), ("name", "name"), ())
+    DEEP_KINDS = ()
 
     def cases(self):
-        for kinds in self.KINDS:
+        from engine.contract import deep
+        for kinds in self.KINDS + (self.DEEP_KINDS if deep() else ()):
             label = "by=" + ("+".join(kinds) if kinds else "nothing")
 
             def make_env(ex, kinds=kinds):
